@@ -604,7 +604,9 @@ class FnVerifier:
         if ext.event:
             R.trace.append(Event(ext.event, args, kwargs))
             li = ext.log if ext.log is not None else 0
-            if li == "recv":
+            if li == "result":
+                pass
+            elif li == "recv":
                 if recv is not None:
                     self.emit_log(R, ext.event, recv)
             elif li == "const":
@@ -638,7 +640,8 @@ class FnVerifier:
         elif ext.pure:
             if rt.heap:
                 raise EngineError("pure external with heap result")
-            uargs = [a for a in args if not a.is_const] + [v for v in kwargs.values() if not v.is_const]
+            skip = ("obj", "drec", "nullable", "itemref")  # objects do not enter the ghost function
+            uargs = [a for a in args if not a.is_const and a.t.kind not in skip] + [v for v in kwargs.values() if not v.is_const and v.t.kind not in skip]
             if recv is not None and not recv.is_const and not recv.t.heap:
                 uargs = [recv] + uargs
             if ext.args:
@@ -658,6 +661,8 @@ class FnVerifier:
             R.assume(R.truthy(self.spec_in_env(R, en, env, old_heap=old)))
         if ext.bind:
             R.base_env[ext.bind] = res
+        if ext.event and ext.log == "result" and not res.t.heap and not res.is_const:
+            self.emit_log(R, ext.event, res)
         return res
 
     def spec_in_env(self, R, src, env, old_heap=None, frame=None, entry_heap=None):
@@ -715,6 +720,7 @@ class FnVerifier:
                 v1 = R.to_int(self.spec_in_env(R, cc.variant, env))
                 self.add_obligation(R, "decreases", cname, z3.And(R.entry_variant >= 0, v1 < R.entry_variant, v1 >= 0), clause="variant: " + cc.variant, line=getattr(node, "lineno", None))
         old = R.snapshot()
+        self.emit_log(R, "call:" + cname.split(".")[-1], mk_int(1))
         # raises
         if cc.raises:
             opts = ["ok"]
